@@ -448,6 +448,13 @@ def analyse_explore(ctx, results, stats, known_hits):
                                                 "sequential_baseline": m["Want"], "observed": m["Got"], "where": m["Where"]}))
                 break
             for pmsg in (r.get("Panics") or []):
+                if ": fields patterns" in pmsg.split("PANIC:")[0]:
+                    # F11(a) again: makeValue panics ("not properly initialized (state: finalized, value: <nil>)") on the
+                    # pattern-constraint vertex that another goroutine is finalizing
+                    known_hits.append(("F11", "exploration round=%d seed=%d kind=%s: PANIC in a `fields patterns` call: %s" % (
+                        r["Round"], r["Seed"], r["Kind"], pmsg.split("PANIC:")[1].strip().split("\n")[0][:120] if "PANIC:" in pmsg else "")))
+                    stats["mismatches_known_f11"] += 1
+                    continue
                 stats["panics"] += 1
                 if stats["panics"] <= 6:
                     ctx.violation(round_payload(r, {"kind": "panic-during-concurrent-use", "panic": pmsg}))
@@ -527,7 +534,7 @@ def run(ctx):
     vm = vm_crosscheck(ctx, exe)
     phase["vm_crosscheck"] = round(time.time() - t1, 1)
     t1 = time.time()
-    nmodels = 20 if quick else 80
+    nmodels = 16 if quick else 80
     minfo, cases, impl, model, mraces = run_models(ctx, harness, exe, nmodels)
     phase["models"] = round(time.time() - t1, 1)
     kinds = collections.Counter()
@@ -571,9 +578,9 @@ def run(ctx):
 
     # 2. direct exploration of the property under the race detector
     if quick:
-        nproc, rounds, deadline = 6, 14, 36
+        nproc, rounds, deadline = 6, 14, 32
     else:
-        nproc, rounds, deadline = 8, 400, 560
+        nproc, rounds, deadline = 8, 400, 450
     t1 = time.time()
     results = run_explore(ctx, harness, nproc, rounds, deadline)
     analyse_explore(ctx, results, stats, known_hits)
@@ -591,7 +598,7 @@ def run(ctx):
         src = open(os.path.join(cdir, nm)).read()
         mcalls = re.search(r"(?m)^// calls: (.*)$", src)
         calls = mcalls.group(1).strip() if mcalls else "describe|syntax none|json"
-        wrc, wout, wraces, werr = run_witness(ctx, harness, src, calls, reps=4 if quick else 30)
+        wrc, wout, wraces, werr = run_witness(ctx, harness, src, calls, reps=4 if quick else 20)
         wraces_total += len(wraces)
         mm = re.search(r"mismatches=(\d+)", wout)
         nm_mism = int(mm.group(1)) if mm else -1
